@@ -755,6 +755,10 @@ class CSSStyleSheet(cssutils.stylesheets.StyleSheet):
                         ):
                             index = i  # before these
                             break
+                    # but never before @charset or @import
+                    for i, r in enumerate(self._cssRules):
+                        if i >= index and r.type in (r.CHARSET_RULE, r.IMPORT_RULE):
+                            index = i + 1
             else:
                 # after @charset and @import
                 for r in self._cssRules[index:]:
@@ -813,6 +817,14 @@ class CSSStyleSheet(cssutils.stylesheets.StyleSheet):
                         ):
                             index = i  # before these
                             break
+                    # but never before @charset, @import or @namespace
+                    for i, r in enumerate(self._cssRules):
+                        if i >= index and r.type in (
+                            r.CHARSET_RULE,
+                            r.IMPORT_RULE,
+                            r.NAMESPACE_RULE,
+                        ):
+                            index = i + 1
             else:
                 # after @charset @import @namespace
                 for r in self._cssRules[index:]:
